@@ -93,10 +93,50 @@ def set_point(p, pt):
         p.set_val(k, v)
 
 
+def variant(a, kind):
+    """a perturbation of an array that PRESERVES the summaries a cache could be keyed on: 'swap' exchanges two entries (same
+    sum, norm, extrema, sorted values; off-diagonal entries for square matrices: same diagonal too), 'offdiag' changes
+    only the off-diagonal part of a square matrix, 'interior' leaves the first and last entry (row) alone.  None if not applicable"""
+    a = np.array(a, dtype=float)
+    if a.size < 2:
+        return None
+    sc = max(np.abs(a).max(), 1e-3)
+    b = a.copy()
+    square = a.ndim == 2 and a.shape[0] == a.shape[1] and a.shape[0] >= 2
+    if kind == "swap":
+        f = b.reshape(-1)
+        idx = [i for i in range(f.size) if not (square and i // a.shape[1] == i % a.shape[1])]
+        for i in idx:
+            for j in idx:
+                if j > i and abs(f[i] - f[j]) > 1e-3 * sc:
+                    f[i], f[j] = f[j], f[i]
+                    return b
+        return None
+    if kind == "offdiag":
+        if not square:
+            return None
+        n = a.shape[0]
+        pat = 0.05 * sc * np.sin(1.0 + np.arange(n * n).reshape(n, n))
+        pat[np.arange(n), np.arange(n)] = 0.0
+        return a + pat
+    if kind == "interior":
+        if a.shape[0] < 3:
+            return None
+        b[1:-1] = b[1:-1] * 1.07 + 0.03 * sc
+        return b
+    raise ValueError(kind)
+
+
 def point_of(model, key):
-    """a design point: an index into model.points, or ('mix', base, other, name): the base point with the single input
-    'name' taken from the other point ('only one thing changed')"""
+    """a design point: an index into model.points; ('mix', base, other, name): the base point with the single input 'name'
+    taken from the other point ('only one thing changed'); ('var', base, name, kind): the base point with the single input
+    'name' replaced by a summary-preserving variant of itself"""
     if isinstance(key, (list, tuple)):
+        if key[0] == "var":
+            _, base, name, kind = key
+            pt = dict(model.points[base])
+            pt[name] = variant(pt[name], kind)
+            return pt
         _, base, other, name = key
         pt = dict(model.points[base])
         pt[name] = model.points[other][name]
@@ -107,8 +147,8 @@ def point_of(model, key):
 def apply_op(p, model, op, st):
     """st: harness-side flags {k: current point or None, consistent: bool, chk: bool}"""
     kind = op[0]
-    if kind == "gotom":
-        key = ("mix", op[1], op[2], op[3])
+    if kind in ("gotom", "gotov"):
+        key = ("mix" if kind == "gotom" else "var", op[1], op[2], op[3])
         set_point(p, point_of(model, key))
         p.run_model()
         st.update(k=key, consistent=True)
@@ -158,7 +198,7 @@ def reference(model, mode, k):
     if key not in _REF:
         p = model.build(mode)
         st = dict(k=None, consistent=False, chk=False)
-        apply_op(p, model, ("gotom", k[1], k[2], k[3]) if isinstance(k, tuple) else ("goto", k), st)
+        apply_op(p, model, (("gotom" if k[0] == "mix" else "gotov"), k[1], k[2], k[3]) if isinstance(k, tuple) else ("goto", k), st)
         out = outputs_vec(p, model)
         tot = totals_vec(p, model)
         _REF[key] = (out, tot)
